@@ -224,4 +224,44 @@ theorem sequences_spec (h : Params) (bs : Bytes) (seqs : List Seq) (hs : sequenc
   rw [reset_new]
   simpa using h2
 
+theorem definedFiles_decodeAll (h : Params) (fuel : Nat) : ∀ (input : Bytes) (prog : List Instr),
+    decodeAll h fuel input = .ok prog → Line.definedFiles h fuel input = Spec.Line.definedFiles prog := by
+  induction fuel with
+  | zero => intro input prog hd; simp [decodeAll] at hd
+  | succ fuel ih =>
+    intro input prog hd
+    rw [decodeAll] at hd
+    rw [Line.definedFiles]
+    split at hd
+    · rename_i he
+      simp only [Out.ok.injEq] at hd
+      subst hd
+      simp [he, Spec.Line.definedFiles]
+    · rename_i he
+      simp only [he]
+      cases hp : parseInstr h input with
+      | ok p =>
+        obtain ⟨ins, rest⟩ := p
+        rw [hp] at hd
+        simp only at hd
+        cases hr : decodeAll h fuel rest with
+        | ok is =>
+          rw [hr] at hd
+          simp only [Out.ok.injEq] at hd
+          subst hd
+          have := ih rest is hr
+          cases ins <;> simp [Spec.Line.definedFiles, this]
+        | err e => rw [hr] at hd; simp at hd
+        | panic w => rw [hr] at hd; simp at hd
+        | diverge => rw [hr] at hd; simp at hd
+      | err e => rw [hp] at hd; simp at hd
+      | panic w => rw [hp] at hd; simp at hd
+      | diverge => rw [hp] at hd; simp at hd
+
+theorem noHiddenEnd_map_row (rs : List Row) : NoHiddenEnd (rs.map Ev.row) := by
+  induction rs with
+  | nil => simp [NoHiddenEnd]
+  | cons r rs ih => simp [NoHiddenEnd, ih]
+
+
 end Gimli.Line
